@@ -69,12 +69,12 @@ def generate(rng, cfg: Dict) -> Dict:
             f = {"name": f"f{i}_{j}", "kind": kind, "as_string": c.weighted([(False, 5), (True, 3), ("inner", 2)])}
             if kind in ("builtin", "opt_builtin", "list_builtin"):
                 f["target"] = c.pick(BUILTINS)
-                f["container"] = c.pick(["List", "Set"])
+                f["container"] = c.pick(["List", "Set", "Tuple"])
             elif kind in ("enum", "opt_enum"):
                 f["target"] = "Color"
             else:
                 f["target"] = c.pick(names)
-                f["container"] = c.pick(["List", "Set"])
+                f["container"] = c.weighted([("List", 4), ("Set", 3), ("Tuple", 2)])
                 if kind == "private":
                     f["name"] = "_" + f["name"]
                     f["inner"] = c.pick(["one_to_one", "one_to_many", "opt_one"])
@@ -118,7 +118,7 @@ def generate(rng, cfg: Dict) -> Dict:
             ops.append(["render", c.chance(0.7)])
         else:
             ops.append(["recheck"])
-    return {"property": "C17", "machine": "diagram_sim", "symbol_family": symbol_family, "decoy": two_modules and c.chance(0.6), "future_annotations": c.chance(0.3),
+    return {"property": "C17", "machine": "diagram_sim", "symbol_family": symbol_family, "decoy": two_modules and c.chance(0.6), "future_annotations": c.chance(0.3), "second_family": c.chance(0.35),
             "classes": classes, "in_diagram": in_diagram, "order1": order1, "order2": order2, "ops": ops}
 
 
@@ -139,14 +139,14 @@ def annotation(f: Dict) -> str:
     elif k in ("opt_builtin", "opt_enum", "opt_one"):
         text = f"Optional[{t}]"
     elif k in ("list_builtin", "one_to_many"):
-        text = f"{f['container']}[{t}]"
+        text = f"Tuple[{t}, ...]" if f["container"] == "Tuple" else f"{f['container']}[{t}]"
     elif k == "type_valued":
         text = f"Type[{t}]"
     else:
         raise ValueError(k)
     if f["as_string"] == "inner" and text != t:
         # only the class name is quoted: Optional["X"], List["X"], Type["X"]
-        return text.replace(f"[{t}]", f"[{t!r}]")
+        return text.replace(f"[{t}]", f"[{t!r}]").replace(f"[{t}, ...]", f"[{t!r}, ...]")
     return repr(text) if f["as_string"] else text
 
 
@@ -157,13 +157,13 @@ def default_of(f: Dict) -> str:
     if k == "enum":
         return "Color.RED"
     if k in ("list_builtin", "one_to_many"):
-        return "field(default_factory=%s)" % ("list" if f["container"] == "List" else "set")
+        return "()" if f["container"] == "Tuple" else "field(default_factory=%s)" % ("list" if f["container"] == "List" else "set")
     return "None"
 
 
 def source_of(scenario: Dict, module: str) -> str:
     lines = ["from __future__ import annotations"] if scenario.get("future_annotations") else []
-    lines += ["from dataclasses import dataclass, field", "from typing import Optional, List, Set, Type", "import enum"]
+    lines += ["from dataclasses import dataclass, field", "from typing import Optional, List, Set, Tuple, Type", "import enum"]
     if scenario.get("symbol_family"):
         lines.append("from krrood.entity_query_language.predicate import Symbol")
     lines += ["", "class Color(enum.Enum):", "    RED = 1", "    BLUE = 2", ""]
@@ -184,7 +184,7 @@ def source_of(scenario: Dict, module: str) -> str:
     return "\n".join(lines)
 
 
-def make_world(scenario: Dict) -> Dict[str, type]:
+def make_world(scenario: Dict, suffix: str = "") -> Dict[str, type]:
     mods = {}
     if scenario.get("decoy"):
         decoy = types.ModuleType("simd_a_decoy")
@@ -196,7 +196,7 @@ def make_world(scenario: Dict) -> Dict[str, type]:
     for m in ("a", "b"):
         if not any(cl["module"] == m for cl in scenario["classes"]):
             continue
-        mod = types.ModuleType(f"simd_fam_{m}")
+        mod = types.ModuleType(f"simd{suffix}_fam_{m}")
         sys.modules[mod.__name__] = mod
         # dont_inherit: this file postpones the evaluation of its annotations, the generated modules must not
         exec(compile(source_of(scenario, m), mod.__name__, "exec", dont_inherit=True), mod.__dict__)
@@ -409,7 +409,7 @@ def execute(scenario: Dict) -> Dict:
                     return False
         return True
 
-    def classify(diagram, origin) -> bool:
+    def classify(diagram, origin, classes=classes) -> bool:
         for name in members1:
             wc = diagram.get_wrapped_class(classes[name])
             got = {f.public_name: f for f in wc.fields}
@@ -501,6 +501,22 @@ def execute(scenario: Dict) -> Dict:
                 break
             if not check_all(f"{kind} op {n}"):
                 break
+    if not verdicts and scenario.get("second_family"):
+        # another family of the same shape in the same process: new class objects with the same names
+        # (whatever krrood remembered about the first family by name must not leak into this one)
+        try:
+            classes2 = make_world(scenario, suffix="2")
+            d3 = ClassDiagram([classes2[m] for m in members1])
+            counters.inc("fault.second_family_same_names")
+            now = normalise(d3)
+            if now["edges"] != truth["edges"] or now["nodes"] != sorted(members1):
+                missing = [e for e in truth["edges"] if e not in now["edges"]]
+                extra = [e for e in now["edges"] if e not in truth["edges"]]
+                verdicts.append(kernel.verdict("C17.mirror", f"second family with the same class names: edges missing {missing[:4]}, unexpected {extra[:4]}", aspect=("missing-" if missing else "extra-") + (missing or extra)[0][0], where="second-family"))
+            else:
+                classify(d3, "second family", classes2)
+        except Exception as e:
+            verdicts.append(kernel.verdict("C17.build", f"building the diagram of a second family with the same class names raised {type(e).__name__}: {e}", aspect="exception", where="second-family"))
     if tmpdir:
         shutil.rmtree(tmpdir, ignore_errors=True)
     has_inherited_assoc = any(e[0] == "assoc" for e in truth["edges"]) and any(e[0] == "inh" for e in truth["edges"])
